@@ -10,6 +10,10 @@ actions of `process_file_into`, the last write possibly cut at any byte.
   line written into the `.rs` file before the body) the property is FALSE, for every generator and
   hash function: the crash state after the two header lines and any proper prefix of the body is
   accepted by the next non-forced build, which leaves the truncated file in place.
+* `fixed_crash_then_history_then_build_current`: after a crash, any further history (editing the
+  grammar to one with a shorter or longer output included) and then a build gives the forced output
+  of the then-current text; needs the temporary file to be truncated when opened (`Variant.Sound`).
+  `stale_tmp_tail_kept` is the counterexample for opening it without truncation.
 * `crash_then_build_current`: for the repaired sequence (`tmpRename = true`: temporary sibling +
   atomic `rename`) the property holds for every crash prefix; `fixed_crash_then_build_current` is
   the statement without UTF-8 side conditions for the fully repaired code.
@@ -36,6 +40,9 @@ theorem noRs_report (cfg : Cfg) (i : Nat) (reps : List Bytes) : NoRs (reportActs
 
 theorem noRs_writeTmp (i : Nat) (p : Params) (g body : Bytes) : NoRs (writeOut (.tmp i) p g body) :=
   fun a ha j => writeOut_touches (.tmp i) p g body (.rs j) (by simp) a ha
+
+theorem noRs_writeTmpKeep (i : Nat) (p : Params) (g body : Bytes) : NoRs (writeOutKeep (.tmp i) p g body) :=
+  fun a ha j => writeOutKeep_touches (.tmp i) p g body (.rs j) (by simp) a ha
 
 theorem NoRs.append {xs ys : List FsAct} (hx : NoRs xs) (hy : NoRs ys) : NoRs (xs ++ ys) := by
   intro a ha j
@@ -98,13 +105,20 @@ theorem crash_shape_fixed (ht : v.tmpRename = true) (cfg : Cfg) (st : St) (i : N
           exact Or.inr (crash_remove_mid (noRs_report cfg i _) h)
         | ok body =>
           simp only [hr, ht, ↓reduceIte] at h ⊢
+          generalize hw : (if v.truncTmp = true then writeOut (.tmp i) p g body
+            else writeOutKeep (.tmp i) p g body) = w at h ⊢
+          have hwn : NoRs w := by
+            subst hw
+            split
+            · exact noRs_writeTmp i p g body
+            · exact noRs_writeTmpKeep i p g body
           have e : (FsAct.remove (.rs i) :: reportActs cfg i (p.gen g).reports) ++
-              (writeOut (.tmp i) p g body ++ [FsAct.rename (.tmp i) (.rs i)]) =
-              (FsAct.remove (.rs i) :: (reportActs cfg i (p.gen g).reports ++
-                writeOut (.tmp i) p g body)) ++ [FsAct.rename (.tmp i) (.rs i)] := by simp
+              (w ++ [FsAct.rename (.tmp i) (.rs i)]) =
+              (FsAct.remove (.rs i) :: (reportActs cfg i (p.gen g).reports ++ w)) ++
+                [FsAct.rename (.tmp i) (.rs i)] := by simp
           rw [e] at h ⊢
           rcases CrashPrefix.snoc_rename h with h' | rfl
-          · exact Or.inr (crash_remove_mid ((noRs_report cfg i _).append (noRs_writeTmp i p g body)) h')
+          · exact Or.inr (crash_remove_mid ((noRs_report cfg i _).append hwn) h')
           · exact Or.inl rfl
       · have hu' : validUtf8 g = false := by simpa using hu
         simp only [hu', Bool.not_false, ↓reduceIte] at h ⊢
@@ -112,7 +126,7 @@ theorem crash_shape_fixed (ht : v.tmpRename = true) (cfg : Cfg) (st : St) (i : N
 
 /-- what a crash of the fixed sequence can leave in the `.rs` files: for every grammar `j` the old
     output; or, for the grammar being built, nothing or the complete new output -/
-theorem crash_states_fixed (ht : v.tmpRename = true) (cfg : Cfg) (st : St) (i : Nat) (g : Bytes)
+theorem crash_states_fixed (hs : v.Sound) (ht : v.tmpRename = true) (cfg : Cfg) (st : St) (i : Nat) (g : Bytes)
     (hg : st.gr i = some g) {cut : List FsAct} (h : CrashPrefix (plan v p cfg st i).2 cut) :
     (applyActs st cut).gr = st.gr ∧
     (∀ j, j ≠ i → (applyActs st cut).fs (.rs j) = st.fs (.rs j)) ∧
@@ -122,7 +136,7 @@ theorem crash_states_fixed (ht : v.tmpRename = true) (cfg : Cfg) (st : St) (i : 
   refine ⟨applyActs_gr _ _, ?_⟩
   rcases crash_shape_fixed ht cfg st i h with rfl | rfl | ⟨cut', rfl, hno⟩
   · -- the complete run
-    have hres := build_res v p cfg st i g hg
+    have hres := build_res hs p cfg st i g hg
     have e : applyActs st (plan v p cfg st i).2 = (build v p cfg st i).2 := rfl
     rw [e]
     generalize build v p cfg st i = r at hres
@@ -148,14 +162,14 @@ theorem crash_states_fixed (ht : v.tmpRename = true) (cfg : Cfg) (st : St) (i : 
 
 /-- every crash state of the fixed sequence is honest -/
 theorem crash_inv_fixed (hp : HeaderOk p) (hinj : HashInj p) (hgs : GoodSpec p Good)
-    (ht : v.tmpRename = true) (cfg : Cfg)
+    (hs : v.Sound) (ht : v.tmpRename = true) (cfg : Cfg)
     (st : St) (i : Nat) (hinv : Inv Good v p st) {cut : List FsAct}
     (h : CrashPrefix (plan v p cfg st i).2 cut) : Inv Good v p (applyActs st cut) := by
   cases hg : st.gr i with
   | none =>
     -- nothing, or only the removal of the old output
     rcases crash_shape_fixed ht cfg st i h with rfl | rfl | ⟨cut', rfl, hno⟩
-    · exact build_inv hp hinj hgs v cfg st i hinv
+    · exact build_inv hp hinj hgs hs cfg st i hinv
     · exact hinv
     · intro j f hf
       rw [applyActs_cons, applyActs_frame _ _ _ (fun a ha => hno a ha j)] at hf
@@ -165,7 +179,7 @@ theorem crash_inv_fixed (hp : HeaderOk p) (hinj : HashInj p) (hgs : GoodSpec p G
         rw [setFs_other _ _ (by simp [hj])] at hf
         exact hinv j f hf
   | some g =>
-    obtain ⟨_, hframe, hi⟩ := crash_states_fixed ht cfg st i g hg h
+    obtain ⟨_, hframe, hi⟩ := crash_states_fixed hs ht cfg st i g hg h
     intro j f hf
     by_cases hj : j = i
     · subst hj
@@ -186,7 +200,7 @@ theorem headerUtf8_canon (hp : HeaderOk p) (g body : Bytes) : headerUtf8 (canon 
     non-forced build leaves exactly the bytes a forced build of `g` writes (`version ⏎ hash ⏎ body`,
     or no file when generation fails).  `rename` being atomic is the assumption built into
     `CrashPrefix`. -/
-theorem crash_then_build_current (hp : HeaderOk p) (hinj : HashInj p) (ht : v.tmpRename = true)
+theorem crash_then_build_current (hp : HeaderOk p) (hinj : HashInj p) (hs : v.Sound) (ht : v.tmpRename = true)
     (cfg : Cfg) (st : St) (i : Nat)
     (g : Bytes) (hinv : Inv (Exact p) v p st) (hg : st.gr i = some g) (hu : validUtf8 g = true)
     (hh : ∀ f, st.fs (.rs i) = some f → headerUtf8 f.data = true)
@@ -195,38 +209,109 @@ theorem crash_then_build_current (hp : HeaderOk p) (hinj : HashInj p) (ht : v.tm
       match (p.gen g).result with
       | .ok body => some (canon p g body)
       | .error _ => none := by
-  obtain ⟨hgr, _, hi⟩ := crash_states_fixed ht cfg st i g hg h
+  obtain ⟨hgr, _, hi⟩ := crash_states_fixed hs ht cfg st i g hg h
   have hg1 : (applyActs st cut).gr i = some g := by rw [hgr]; exact hg
-  have hinv1 := crash_inv_fixed hp hinj (exact_spec p) ht cfg st i hinv h
+  have hinv1 := crash_inv_fixed hp hinj (exact_spec p) hs ht cfg st i hinv h
   have hh1 : ∀ f, (applyActs st cut).fs (.rs i) = some f → headerUtf8 f.data = true := by
     intro f hf
     rcases hi with e | e | ⟨body, c, _, e⟩
     · rw [e] at hf; exact hh f hf
     · rw [e] at hf; cases hf
     · rw [e] at hf; cases hf; exact headerUtf8_canon hp g body
-  exact (build_eq_forced v _ i g hinv1 hg1 hu hh1).trans
-    (forced_build_output v { force := true } _ i g hg1 rfl hu)
+  exact (build_eq_forced hs _ i g hinv1 hg1 hu hh1).trans
+    (forced_build_output hs { force := true } _ i g hg1 rfl hu)
 
 /-- other grammars' outputs are not affected by the crash -/
-theorem crash_frame (ht : v.tmpRename = true) (cfg : Cfg) (st : St) (i j : Nat) (g : Bytes)
+theorem crash_frame (hs : v.Sound) (ht : v.tmpRename = true) (cfg : Cfg) (st : St) (i j : Nat) (g : Bytes)
     (hg : st.gr i = some g) (hj : j ≠ i)
     {cut : List FsAct} (h : CrashPrefix (plan v p cfg st i).2 cut) :
     (applyActs st cut).fs (.rs j) = st.fs (.rs j) :=
-  (crash_states_fixed ht cfg st i g hg h).2.1 j hj
+  (crash_states_fixed hs ht cfg st i g hg h).2.1 j hj
 
 /-- **Crash consistency of the repaired code, no side conditions** (`Variant.fixed`-like: temp +
     rename, old output removed first, unreadable headers rebuilt): from any honest state, for any
     grammar text and any existing output bytes, after any crash prefix of a build the next
     non-forced build leaves exactly what a forced build leaves. -/
 theorem fixed_crash_then_build_current (hp : HeaderOk p) (hinj : HashInj p) (hgu : GenUtf8 p)
-    (ht : v.tmpRename = true) (hr : v.removeFirst = true) (hut : v.utf8Tolerant = true)
+    (hs : v.Sound) (ht : v.tmpRename = true) (hr : v.removeFirst = true) (hut : v.utf8Tolerant = true)
     (cfg : Cfg) (st : St) (i : Nat) (g : Bytes) (hinv : Inv (Exact p) v p st)
     (hg : st.gr i = some g) {cut : List FsAct} (h : CrashPrefix (plan v p cfg st i).2 cut) :
     ((build v p { force := false } (applyActs st cut) i).2.fs (.rs i)).map (·.data) =
       ((build v p { force := true } (applyActs st cut) i).2.fs (.rs i)).map (·.data) := by
   have hg1 : (applyActs st cut).gr i = some g := by rw [applyActs_gr]; exact hg
-  exact fixed_build_eq_forced hgu hr hut _ i g
-    (crash_inv_fixed hp hinj (exact_spec p) ht cfg st i hinv h) hg1
+  exact fixed_build_eq_forced hs hgu hr hut _ i g
+    (crash_inv_fixed hp hinj (exact_spec p) hs ht cfg st i hinv h) hg1
+
+/-- **Crash, then anything, then build** (repaired code).  After ANY crash prefix of a build, ANY
+    further history — in particular editing the grammar to a different text with a shorter or a
+    longer output, changing options, deleting or altering outputs (honest hand edits), more builds
+    — followed by a non-forced build of an existing grammar file leaves exactly the bytes of a
+    forced build of the text the grammar has AT THAT TIME.  Whatever the interrupted build left in
+    the temporary file does not matter: the temporary file is truncated when it is opened
+    (`v.Sound`; without truncation this is false, `stale_tmp_tail_kept`). -/
+theorem fixed_crash_then_history_then_build_current (hp : HeaderOk p) (hinj : HashInj p)
+    (hgu : GenUtf8 p) (hs : v.Sound) (ht : v.tmpRename = true) (hr : v.removeFirst = true)
+    (hut : v.utf8Tolerant = true) (cfg : Cfg) (st : St) (i : Nat) (hinv : Inv (Exact p) v p st)
+    {cut : List FsAct} (h : CrashPrefix (plan v p cfg st i).2 cut)
+    (ops : List Op) (hok : HistOk (Exact p) v p (applyActs st cut) ops)
+    (j : Nat) (g' : Bytes) (hg' : (run v p (applyActs st cut) ops).gr j = some g') :
+    ((build v p { force := false } (run v p (applyActs st cut) ops) j).2.fs (.rs j)).map (·.data) =
+      ((build v p { force := true } (run v p (applyActs st cut) ops) j).2.fs (.rs j)).map (·.data) :=
+  fixed_build_eq_forced hs hgu hr hut _ j g'
+    (inv_preserved_by_ops hp hinj (exact_spec p) hs ops _
+      (crash_inv_fixed hp hinj (exact_spec p) hs ht cfg st i hinv h) hok) hg'
+
+/-! ### Opening the temporary file without truncation: counterexample -/
+
+/-- **`stale_tmp_tail_kept`**: if the temporary file is opened WITHOUT truncation
+    (`truncTmp = false`: `OpenOptions::new().write(true).create(true)`), a temporary file left
+    behind by an interrupted build (any contents `old` longer than the new output) is only
+    overwritten at its beginning: the complete, uninterrupted build of grammar `g` renames into
+    place the file `version ⏎ hash g ⏎ body ++ tail-of-old`, which differs from the forced output
+    of a clean directory, and every later non-forced build accepts it. -/
+theorem stale_tmp_tail_kept (hp : HeaderOk p) (ht : v.tmpRename = true) (hk : v.truncTmp = false)
+    (cfg : Cfg) (st : St) (i : Nat) (g body old : Bytes) (c : Nat)
+    (hg : st.gr i = some g) (hu : validUtf8 g = true) (hgen : (p.gen g).result = .ok body)
+    (hneed : cfg.force = true ∨ needsRebuild v p g ((st.fs (.rs i)).map (·.data)) = .ok true)
+    (htmp : st.fs (.tmp i) = some ⟨old, c⟩) (hlen : (canon p g body).length < old.length) :
+    (build v p cfg st i).1 = .built ∧
+    (∃ c', (build v p cfg st i).2.fs (.rs i) =
+      some ⟨canon p g body ++ old.drop (canon p g body).length, c'⟩) ∧
+    canon p g body ++ old.drop (canon p g body).length ≠ canon p g body ∧
+    build v p { force := false } (build v p cfg st i).2 i = (.upToDate, (build v p cfg st i).2) := by
+  have hplan : plan v p cfg st i = (.built,
+      (FsAct.remove (.rs i) :: reportActs cfg i (p.gen g).reports) ++
+        (writeOutKeep (.tmp i) p g body ++ [.rename (.tmp i) (.rs i)])) := by
+    rcases hneed with h | h
+    · simp [plan, hg, h, hu, hgen, ht, hk]
+    · cases hc : cfg.force <;> simp [plan, hg, hc, h, hu, hgen, ht, hk]
+  -- the temporary file survives the removal of the old output and the report writes
+  have htmp1 : (applyActs st (FsAct.remove (.rs i) :: reportActs cfg i (p.gen g).reports)).fs (.tmp i) =
+      some ⟨old, c⟩ := by
+    rw [applyActs_frame _ _ (.tmp i), htmp]
+    intro a ha
+    rcases List.mem_cons.mp ha with rfl | ha
+    · intro e; simp [touches] at e
+    · exact reportActs_touches cfg i _ _ (by simp) a ha
+  have hrs : ∃ c', (build v p cfg st i).2.fs (.rs i) =
+      some ⟨canon p g body ++ old.drop (canon p g body).length, c'⟩ := by
+    refine ⟨(applyActs st (FsAct.remove (.rs i) :: reportActs cfg i (p.gen g).reports)).clock, ?_⟩
+    simp only [build, hplan]
+    rw [applyActs_append, applyActs_append, applyActs_singleton,
+      applyAct_rename_fs_dst _ _ _ (by simp), (applyActs_writeOutKeep_dst _ _ _ _ _).1, htmp1]
+    rfl
+  refine ⟨by simp [build, hplan], hrs, ?_, ?_⟩
+  · intro e
+    have := congrArg List.length e
+    simp at this
+    omega
+  · obtain ⟨c', hc'⟩ := hrs
+    have hgr : (build v p cfg st i).2.gr i = some g := by
+      simp only [build]; rw [applyActs_gr]; exact hg
+    have hcan : canon p g body ++ old.drop (canon p g body).length =
+        canon p g (body ++ old.drop (canon p g body).length) := by simp [canon, List.append_assoc]
+    rw [hcan] at hc'
+    exact untouched_when_current hp v _ i g _ _ hgr hc'
 
 /-! ### The unchanged code: counterexample -/
 
@@ -269,7 +354,7 @@ theorem header_then_crash (hp : HeaderOk p) (ht : v.tmpRename = false) (cfg : Cf
     exact .cons _ (.cons _ (.cons _ (.partialWrite _ _ _ _)))
   · exact untouched_when_current hp v _ i g _ _ hg1 hfs
   · rw [hfs]; rfl
-  · rw [forced_build_output v { force := true } _ i g hg1 rfl hu, hgen, hfs]
+  · rw [forced_build_output (Variant.sound_of_not_tmp ht) { force := true } _ i g hg1 rfl hu, hgen, hfs]
     simp only [Option.map_some, ne_eq, Option.some.injEq]
     intro e
     have := congrArg List.length e
